@@ -256,6 +256,7 @@ func runEnc(fx *fixture, sb *sandbox, archivePath string, data []byte, priv hpke
 			return fmt.Errorf("harness: %w", err)
 		}
 		what := fmt.Sprintf("%s(force=%v, destination %s)", ep, force, state)
+		destBefore := snapTree(sb.out)
 		var err error
 		if ep == "Unpack" {
 			err = retriever.Unpack(retriever.UnpackOptions{ArchiveReader: bytes.NewReader(data), ArchiveIdentity: priv, OutputDir: sb.out, Force: force})
@@ -273,18 +274,17 @@ func runEnc(fx *fixture, sb *sandbox, archivePath string, data []byte, priv hpke
 			if exp == mustAccept && !(state == "old" && !force) {
 				return fmt.Errorf("%s rejects an unmodified archive: %v", what, err)
 			}
-			// the destination is absent or exactly as before
-			switch state {
-			case "absent":
-				if exists {
-					return fmt.Errorf("%s failed (%v) but created the destination (%v)", what, err, fileNames(files))
-				}
-			case "empty":
-				if exists && len(files) > 0 {
-					return fmt.Errorf("%s failed (%v) and left partial output in the destination: %v", what, err, fileNames(files))
-				}
-			case "old":
-				if d := sameFiles(oldContent, files); d != "" || !exists {
+			// the destination is absent or exactly as before (entry by entry, empty directories included)
+			after := snapTree(sb.out)
+			_, gone := after["."]
+			gone = !gone
+			switch {
+			case state == "absent" && !gone:
+				return fmt.Errorf("%s failed (%v) but created the destination (%v)", what, err, fileNames(files))
+			case state == "empty" && gone:
+				// an empty directory that disappeared: "absent" is tolerated
+			case state != "absent":
+				if d := diffTrees(destBefore, after); d != "" || !exists {
 					return fmt.Errorf("%s failed (%v) but the existing destination changed: %s", what, err, d)
 				}
 			}
@@ -469,7 +469,7 @@ func genByteCase(t *rapid.T) ByteCase {
 }
 
 func TestC20Bytes(t *testing.T) {
-	evid.Prop(t, "bytes", evid.R.N(2500, 12000), genByteCase, byteOracle)
+	evid.Prop(t, "bytes", evid.R.N(2500, 8000), genByteCase, byteOracle)
 }
 
 // ---- enumerated sweeps -------------------------------------------------------------------------
@@ -512,13 +512,12 @@ func TestC20Sweep(t *testing.T) {
 		jobs = append(jobs, job{fix, "tar", 0, stride, true}, job{fix, "enc", 0, stride, true})
 	}
 	if r.Thorough() {
-		// every shard: the three codecs of the smallest shape; plus one further shape per shard
-		for f := 0; f < len(codecs); f++ {
-			addFixture(f, 1)
-		}
-		sh := 1 + r.Shard%(len(shapes)-1)
-		for f := sh * len(codecs); f < (sh+1)*len(codecs); f++ {
-			addFixture(f, 1)
+		// shard k sweeps the fixtures f with f mod 4 == k mod 4 (a mix of shapes and codecs); with the
+		// driver's 8 shards every fixture is swept twice, with different single-bit masks
+		for f := 0; f < nFixtures; f++ {
+			if f%4 == r.Shard%4 {
+				addFixture(f, 1)
+			}
 		}
 	} else {
 		addFixture(0, 5)                               // tiny/none: dump directory exhaustively, archives strided
@@ -556,7 +555,7 @@ func TestC20Sweep(t *testing.T) {
 	r.AddExtraCount("sweep_cases", total)
 	r.AddExtraCount("sweep_byte_positions", positions)
 	if r.Thorough() {
-		r.Extra("exhaustive_byte_positions", "every offset (substitution with 2 masks) and every truncation length of every file, the tar and the encrypted archive of the tiny fixtures in all codecs on every shard, plus one further shape per shard (shape = 1 + shard mod 3)")
+		r.Extra("exhaustive_byte_positions", "every offset (substitution with 2 masks: one single-bit flip chosen by the shard, one seed-derived mask) and every truncation length of every file, the tar and the encrypted archive of the fixtures f with f mod 4 == shard mod 4; with >= 4 shards (the driver uses 8) all 12 fixtures are covered")
 	} else {
 		r.Extra("exhaustive_byte_positions", "every offset and truncation length of every file of the smallest dump directory (tiny/none) and of one gzip and one zstd fragment; tar and encrypted archive of tiny/none at stride 5 (phase from seed)")
 	}
